@@ -26,7 +26,7 @@ theorem stable_null_zero (env : Env) (fmt : Fmt) (L : Leaves) : ∀ (f : Nat) (t
         cases hs : findStruct env.structs n with
         | some s =>
           simp only [hs] at h
-          obtain ⟨vals, hv, _⟩ := h
+          obtain ⟨_, vals, hv, _⟩ := h
           cases hv
         | none =>
           simp only [hs] at h ⊢
@@ -95,15 +95,15 @@ theorem generic_roundtrip_aux (env : Env) (fmt : Fmt) (L : Leaves) (hL : LeafSou
       · simp only [hl, if_true] at hs
         exact hL n hl f v hs.1 hs.2.1 hs.2.2
       simp only [hl, if_false] at hs
-      simp only [plainB, hl, Bool.false_eq_true, if_false, Bool.and_eq_true] at hp
-      obtain ⟨hnc, hrest⟩ := hp
-      simp only [noCustom, Bool.and_eq_true, Bool.not_eq_true'] at hnc
-      obtain ⟨⟨⟨hc, hdm⟩, _⟩, _⟩ := hnc
-      have hcn : ∀ v, custom fmt n v = none := fun v => custom_none fmt n v hc
-      have hcd : customDecode n = none := customDecode_none n hc
+      simp only [plainB, hl, Bool.false_eq_true, if_false] at hp
       cases hfs : findStruct env.structs n with
       | none =>
-        simp only [hfs] at hs hrest
+        simp only [hfs, Bool.and_eq_true] at hs hp
+        obtain ⟨hnc, hrest⟩ := hp
+        simp only [noCustom, Bool.and_eq_true, Bool.not_eq_true'] at hnc
+        obtain ⟨⟨⟨hc, hdm⟩, _⟩, _⟩ := hnc
+        have hcn : ∀ v, custom fmt n v = none := fun v => custom_none fmt n v hc
+        have hcd : customDecode n = none := customDecode_none n hc
         cases hfn : findNamed env.named n with
         | none => simp [hfn] at hs
         | some e =>
@@ -111,10 +111,18 @@ theorem generic_roundtrip_aux (env : Env) (fmt : Fmt) (L : Leaves) (hL : LeafSou
           obtain ⟨t, he, hd, hn⟩ := ih e v hrest hs
           exact ⟨t, by simp [encode, hcn, hfs, hfn, he], by simp [decode, hcd, hdm, hfs, hfn, hd], hn⟩
       | some s =>
-        simp only [hfs] at hs hrest
-        simp only [Bool.and_eq_true, List.all_eq_true, Bool.or_eq_true, Bool.not_eq_true'] at hrest
-        obtain ⟨⟨hgn, hkn⟩, hflds⟩ := hrest
-        obtain ⟨vals, hv, hvals⟩ := hs
+        simp only [hfs] at hs hp
+        simp only [Bool.and_eq_true] at hp
+        obtain ⟨⟨⟨hso, hgn⟩, hkn⟩, hflds⟩ := hp
+        have hcd : customDecode n = none ∧ hasMethod env n "DecodeMapstructure" = false := by
+          rcases Bool.or_eq_true_iff.mp hso with h | h
+          · simp only [noCustom, Bool.and_eq_true, Bool.not_eq_true'] at h
+            exact ⟨customDecode_none n h.1.1.1, h.1.1.2⟩
+          · simp only [structOnly, Bool.and_eq_true, Option.isNone_iff_eq_none, Bool.not_eq_true'] at h
+            exact ⟨h.1.2, h.2⟩
+        obtain ⟨hcd, hdm⟩ := hcd
+        simp only [Bool.and_eq_true, List.all_eq_true, Bool.or_eq_true, Bool.not_eq_true'] at hflds
+        obtain ⟨hcust, vals, hv, hvals⟩ := hs
         subst hv
         have hgn' := nodupB_nodup _ hgn
         have hfield : ∀ fd ∈ s.fields, rendered fd = true →
@@ -211,8 +219,12 @@ theorem generic_roundtrip_aux (env : Env) (fmt : Fmt) (L : Leaves) (hL : LeafSou
         have hdecall := decodeFields_all_ok (decode env f) (zeroVal env f) vals out s.fields hdec
         refine ⟨.map out, ?_, ?_, fun _ => by simp⟩
         · rw [← hfsd]
-          simp only [encode, hcn, hfs]
-          exact hout
+          rw [← hfsd] at hcust
+          rcases hcust with hcn | hcn
+          · simp only [encode, hcn, hfs]
+            exact hout
+          · simp only [encode, hcn, hfs]
+            exact hout
         · rw [← hfsd]
           simp only [decode, hcd, hdm, Bool.false_eq_true, if_false, hfs, hdecall, hfsd]
 
